@@ -154,7 +154,8 @@ impl Data {
 #[derive(Serialize, Deserialize, Clone, Debug, PartialEq)]
 pub enum Name {
     Lit { s: String },
-    /// n bytes of 'a'..'z' derived from the seed (for 65536 / 65537-byte names)
+    /// exactly n bytes derived from the seed (for 65536 / 65537-byte names): ASCII letters, or 2-byte / 3-byte
+    /// characters padded with ASCII
     Long { n: usize, seed: u64 },
 }
 
@@ -167,10 +168,25 @@ impl Name {
                 let mut s = String::with_capacity(*n);
                 let tag = format!("L{seed:x}_");
                 s.push_str(&tag);
+                s.truncate(*n);
+                // exactly n BYTES; two seeds in three use 2- or 3-byte characters, so that the number of characters
+                // (about n/2, n/3) differs from the number of bytes
+                match seed % 3 {
+                    1 => {
+                        while s.len() + 2 <= *n {
+                            s.push(char::from_u32(0xE0 + r.below(30) as u32).unwrap_or('é'));
+                        }
+                    }
+                    2 => {
+                        while s.len() + 3 <= *n {
+                            s.push(char::from_u32(0x20AC + r.below(16) as u32).unwrap_or('€'));
+                        }
+                    }
+                    _ => {}
+                }
                 while s.len() < *n {
                     s.push((b'a' + r.below(26) as u8) as char);
                 }
-                s.truncate(*n);
                 s
             }
         }
